@@ -6,3 +6,5 @@ import Argot.Props.C15
 import Argot.Props.C09
 import Argot.Props.C03
 import Argot.Props.C08
+import Argot.Props.C11
+import Argot.Props.C04
